@@ -10,4 +10,5 @@ PROPERTY RoNeverChangesBase
 PROPERTY RoRefusesMutators
 PROPERTY InjectedIsReturned
 PROPERTY BpConfines
+PROPERTY SubConfines
 CHECK_DEADLOCK FALSE
